@@ -905,6 +905,10 @@ class ExcelFormula:
             name_space['_REF_'] = AddressRange.create
             name_space['pi'] = math.pi
 
+            # the only python builtin the generated code uses, a function
+            # which is not implemented must not resolve to a python builtin
+            name_space['__builtins__'] = {'str': str}
+
             # function to fixup the operands
             name_space['excel_operator_operand_fixup'] = \
                 build_operator_operand_fixup(capture_error_state)
